@@ -35,6 +35,13 @@ def triangles():
     from bermuda import Cell, Metadata
 
     out = []
+
+    def fam(name, build):
+        """A family whose (valid) cells the library refuses to construct is reported, not crashed on."""
+        try:
+            out.append((name, build()))
+        except Exception as ex:  # noqa: BLE001
+            out.append((name, ex))
     q1 = _months(2021, 1, 6)
     evs = [D(2021, 6, 30), D(2021, 9, 30), D(2021, 12, 31)]
 
@@ -45,75 +52,80 @@ def triangles():
                   loss_details={"layer": True, "peril": "wind"})
     b1 = Metadata(country="US", details={"x": 0, "y": "q"})
     b2 = Metadata(country="US", details={"y": "q", "x": False})
-    out.append(("A:one-slice-respelled", [_cum(ps, pe, e, {"paid_loss": 10 * i + j, "earned_premium": 100}, (a1, a2)[(i + j) % 2])
-                                          for i, (ps, pe) in enumerate(q1) for j, e in enumerate(evs)]))
-    out.append(("A:two-slices-respelled", [_cum(ps, pe, e, {"paid_loss": 10 * i + j + k}, ((a1, a2), (b1, b2))[k][(i + j) % 2])
-                                           for k in (0, 1) for i, (ps, pe) in enumerate(q1) for j, e in enumerate(evs[:2])]))
+    fam("A:one-slice-respelled", lambda: [_cum(ps, pe, e, {"paid_loss": 10 * i + j, "earned_premium": 100}, (a1, a2)[(i + j) % 2])
+                                          for i, (ps, pe) in enumerate(q1) for j, e in enumerate(evs)])
+    fam("A:two-slices-respelled", lambda: [_cum(ps, pe, e, {"paid_loss": 10 * i + j + k}, ((a1, a2), (b1, b2))[k][(i + j) % 2])
+                                           for k in (0, 1) for i, (ps, pe) in enumerate(q1) for j, e in enumerate(evs[:2])])
 
     # ---- B: distinct Metadata that flatten alike
     bs = [Metadata(details={"k": "v"}), Metadata(loss_details={"k": "v"}), Metadata(details={"k": "v"}, loss_details={"k": "v"}),
           Metadata(details={"currency": "USD"}), Metadata(currency="USD"), Metadata(currency="USD", details={"currency": "USD"})]
-    out.append(("B:details-vs-loss_details-vs-attribute(mixed currency)",
-                [_cum(ps, pe, evs[0], {"paid_loss": 1 + i + 10 * k}, m) for k, m in enumerate(bs) for i, (ps, pe) in enumerate(q1[:3])]))
+    fam("B:details-vs-loss_details-vs-attribute(mixed currency)", lambda: [_cum(ps, pe, evs[0], {"paid_loss": 1 + i + 10 * k}, m) for k, m in enumerate(bs) for i, (ps, pe) in enumerate(q1[:3])])
     bs2 = [Metadata(details={"k": "v"}), Metadata(loss_details={"k": "v"}), Metadata(details={"k": "v"}, loss_details={"k": "v"}),
            Metadata(details={"country": "US"}), Metadata(country="US"), Metadata(country=""), Metadata(),
            Metadata(details={"k": ""}), Metadata(loss_details={"k": ""})]
-    out.append(("B:flatten-alike-slices", [_cum(ps, pe, e, {"paid_loss": 1 + i + 10 * k, "earned_premium": 50}, m)
-                                           for k, m in enumerate(bs2) for i, (ps, pe) in enumerate(q1[:3]) for e in evs[:2]]))
+    fam("B:flatten-alike-slices", lambda: [_cum(ps, pe, e, {"paid_loss": 1 + i + 10 * k, "earned_premium": 50}, m)
+                                           for k, m in enumerate(bs2) for i, (ps, pe) in enumerate(q1[:3]) for e in evs[:2]])
 
     # ---- C: calendar corners (February month ends of 1900 / 1968 / 2000 / 2100 / 2240; 30/31-day ends)
     for y in (1899, 1967, 1999, 2099, 2239):
         ms = _months(y, 11, 6)                  # Nov .. Apr across the February of y+1
         es = [ms[-1][1], month_end(y + 1, 6), month_end(y + 1, 12)]
-        out.append((f"C:february-{y + 1}", [_cum(ps, pe, e, {"paid_loss": 3 * i + j + 1}) for i, (ps, pe) in enumerate(ms)
-                                            for j, e in enumerate(es)]))
+        fam(f"C:february-{y + 1}", lambda: [_cum(ps, pe, e, {"paid_loss": 3 * i + j + 1}) for i, (ps, pe) in enumerate(ms)
+                                            for j, e in enumerate(es)])
     ms = _months(2023, 11, 4)
     off = [month_end(2024, 3) - datetime.timedelta(days=1), month_end(2024, 3), month_end(2024, 3) + datetime.timedelta(days=1),
            D(2024, 2, 28), D(2024, 2, 29), D(2024, 6, 30)]
-    out.append(("C:evaluation-next-to-a-month-end", [_cum(ps, pe, e, {"reported_loss": 5 * i + j + 1})
-                                                     for i, (ps, pe) in enumerate(ms) for j, e in enumerate(off)]))
+    fam("C:evaluation-next-to-a-month-end", lambda: [_cum(ps, pe, e, {"reported_loss": 5 * i + j + 1})
+                                                     for i, (ps, pe) in enumerate(ms) for j, e in enumerate(off)])
 
     # ---- D: coordinates given as pandas.Timestamp / datetime with a time of day
-    out.append(("D:timestamp-and-datetime-slices", [
+    fam("D:timestamp-and-datetime-slices", lambda: [
         _cum(ps, pe, e, {"paid_loss": 7 * i + j + 100 * k}, Metadata(details={"src": fl}), flavour=fl)
-        for k, fl in enumerate(("date", "ts", "dt")) for i, (ps, pe) in enumerate(q1[:4]) for j, e in enumerate(evs[:2])]))
-    out.append(("D:one-slice-mixed-date-types", [
+        for k, fl in enumerate(("date", "ts", "dt")) for i, (ps, pe) in enumerate(q1[:4]) for j, e in enumerate(evs[:2])])
+    fam("D:one-slice-mixed-date-types", lambda: [
         _cum(ps, pe, e, {"paid_loss": 7 * i + j}, flavour=("date", "ts", "dt")[(i + j) % 3])
-        for i, (ps, pe) in enumerate(q1) for j, e in enumerate(evs[:2])]))
+        for i, (ps, pe) in enumerate(q1) for j, e in enumerate(evs[:2])])
+
+    from bermuda import IncrementalCell
+    fam("D:incremental-timestamp-slices", lambda: [
+        S.mk_cell(IncrementalCell, fl, ps, pe, e, {"paid_loss": 7 * i + j + 100 * k}, Metadata(details={"src": fl}),
+                  prev=(ps - datetime.timedelta(days=1) if j == 0 else evs[j - 1]))
+        for k, fl in enumerate(("date", "ts", "dt")) for i, (ps, pe) in enumerate(q1[:4]) for j, e in enumerate(evs)])
 
     # ---- E: falsy but valid values (field values 0 / 0.0 / zero arrays / None; limit 0; falsy details)
     fz = Metadata(per_occurrence_limit=0, details={"zero": 0, "no": False, "empty": "", "f": 0.0})
     fz2 = Metadata(per_occurrence_limit=0, details={"zero": 0, "no": False, "empty": "", "f": 0.0, "lob": "b"})
-    out.append(("E:zero-and-None-values", [
+    fam("E:zero-and-None-values", lambda: [
         _cum(ps, pe, e, {"paid_loss": (0, 0.0, None, 5)[(i + j) % 4], "reported_loss": 0, "earned_premium": (0.0, 0)[j % 2],
                          "open_claims": None}, (fz, fz2)[k])
-        for k in (0, 1) for i, (ps, pe) in enumerate(q1) for j, e in enumerate(evs[:2])]))
-    out.append(("E:zero-arrays", [
+        for k in (0, 1) for i, (ps, pe) in enumerate(q1) for j, e in enumerate(evs[:2])])
+    fam("E:zero-arrays", lambda: [
         _cum(ps, pe, e, {"paid_loss": np.zeros(3, dtype=np.int64) if (i + k) % 2 else np.array([1, 0, 2], dtype=np.int64),
                          "reported_loss": np.zeros(3)}, (fz, fz2)[k])
-        for k in (0, 1) for i, (ps, pe) in enumerate(q1[:4]) for e in evs[:1]]))
+        for k in (0, 1) for i, (ps, pe) in enumerate(q1[:4]) for e in evs[:1]])
 
     # ---- F: degenerate shapes
-    out.append(("F:one-cell", [_cum(q1[0][0], q1[0][1], evs[0], {"paid_loss": 5})]))
-    out.append(("F:one-cell-base-class", [_cum(q1[0][0], q1[0][1], evs[0], {"paid_loss": 5}, cls=Cell)]))
-    out.append(("F:field-only-at-later-evaluations", [
+    fam("F:one-cell", lambda: [_cum(q1[0][0], q1[0][1], evs[0], {"paid_loss": 5})])
+    fam("F:one-cell-base-class", lambda: [_cum(q1[0][0], q1[0][1], evs[0], {"paid_loss": 5}, cls=Cell)])
+    fam("F:field-only-at-later-evaluations", lambda: [
         _cum(ps, pe, e, {"paid_loss": i + j + 1, **({"reported_loss": 2 * i + j} if j >= 1 else {}),
                          **({"earned_premium": 100} if j == 2 else {})})
-        for i, (ps, pe) in enumerate(q1) for j, e in enumerate(evs)]))
+        for i, (ps, pe) in enumerate(q1) for j, e in enumerate(evs)])
     m1, m2 = Metadata(loss_details={"cov": "a"}), Metadata(loss_details={"cov": "b"})
-    out.append(("F:field-missing-in-first-cell/all-None-field", [
+    fam("F:field-missing-in-first-cell/all-None-field", lambda: [
         _cum(ps, pe, e, {"paid_loss": i + 1, "open_claims": None, **({"incurred_loss": 3 + i} if k == 1 or i > 0 else {})}, (m1, m2)[k])
-        for k in (0, 1) for i, (ps, pe) in enumerate(q1[:4]) for e in evs[:1]]))
-    out.append(("F:scalars-after-arrays", [
+        for k in (0, 1) for i, (ps, pe) in enumerate(q1[:4]) for e in evs[:1]])
+    fam("F:scalars-after-arrays", lambda: [
         _cum(ps, pe, evs[0], {"paid_loss": np.array([1.5, 2.0]) if i < 3 else float(i), "reported_loss": i if i < 2 else np.array([i, 1])})
-        for i, (ps, pe) in enumerate(q1)]))
+        for i, (ps, pe) in enumerate(q1)])
 
     # ---- G: NumPy corner types
     big = 2 ** 53 + 1
-    out.append(("G:numpy-scalars", [
+    fam("G:numpy-scalars", lambda: [
         _cum(ps, pe, e, {"paid_loss": np.int64(big + i), "reported_loss": np.float64(1.5 * i), "incurred_loss": np.int64(i),
                          "open_claims": bool(i % 2), "closed_claims": big + 2 * i})
-        for i, (ps, pe) in enumerate(q1) for e in evs[:2]]))
+        for i, (ps, pe) in enumerate(q1) for e in evs[:2]])
     for name, mk in (("float32", lambda i: np.array([i + 0.5, 2.0 * i], dtype=np.float32)),
                      ("int32", lambda i: np.array([i, 3 * i], dtype=np.int32)),
                      ("int16", lambda i: np.array([i, 3 * i], dtype=np.int16)),
@@ -121,27 +133,27 @@ def triangles():
                      ("size-1", lambda i: np.array([i + 1], dtype=np.int64)),
                      ("strided", lambda i: np.arange(10 * i, 10 * i + 8, dtype=np.int64)[::2]),
                      ("strided-float", lambda i: np.asfortranarray(np.arange(12.0).reshape(3, 4) + i)[:, 1])):
-        out.append((f"G:{name}-arrays", [_cum(ps, pe, e, {"paid_loss": mk(i), "reported_loss": mk(i + 1)})
-                                         for i, (ps, pe) in enumerate(q1) for e in evs[:2]]))
+        fam(f"G:{name}-arrays", lambda: [_cum(ps, pe, e, {"paid_loss": mk(i), "reported_loss": mk(i + 1)})
+                                         for i, (ps, pe) in enumerate(q1) for e in evs[:2]])
 
     # ---- I: restated cells (same slice and coordinates twice, different values)
-    out.append(("I:restated-cells", [_cum(ps, pe, e, {"paid_loss": 10 * i + j + 100 * rep, "earned_premium": 7 + rep})
+    fam("I:restated-cells", lambda: [_cum(ps, pe, e, {"paid_loss": 10 * i + j + 100 * rep, "earned_premium": 7 + rep})
                                      for rep in (0, 1, 2) for i, (ps, pe) in enumerate(q1[:4]) for j, e in enumerate(evs[:2])
-                                     if rep == 0 or (i + j) % 2 == 0]))
+                                     if rep == 0 or (i + j) % 2 == 0])
 
     # ---- J: period layouts (semi-monthly inside a month, shared starts, nested / overlapping, per-slice ragged, gaps)
     semi = [(D(2021, m, 1), D(2021, m, 15)) for m in (1, 2, 3)] + [(D(2021, m, 16), month_end(2021, m)) for m in (1, 2, 3)]
-    out.append(("J:semi-monthly", [_cum(ps, pe, e, {"paid_loss": ps.day + ps.month}) for ps, pe in semi for e in evs[:2]]))
+    fam("J:semi-monthly", lambda: [_cum(ps, pe, e, {"paid_loss": ps.day + ps.month}) for ps, pe in semi for e in evs[:2]])
     nested = [(D(2021, 1, 1), D(2021, 1, 31)), (D(2021, 1, 1), D(2021, 3, 31)), (D(2021, 1, 1), D(2021, 6, 30)),
               (D(2021, 2, 1), D(2021, 3, 31)), (D(2021, 4, 1), D(2021, 6, 30)), (D(2021, 6, 1), D(2021, 6, 30))]
-    out.append(("J:nested-and-shared-starts", [_cum(ps, pe, e, {"paid_loss": 1 + i + 10 * j})
-                                               for i, (ps, pe) in enumerate(nested) for j, e in enumerate(evs)]))
+    fam("J:nested-and-shared-starts", lambda: [_cum(ps, pe, e, {"paid_loss": 1 + i + 10 * j})
+                                               for i, (ps, pe) in enumerate(nested) for j, e in enumerate(evs)])
     gaps = [q for i, q in enumerate(_months(2020, 1, 14)) if i in (0, 2, 5, 9, 13)]
     rag1, rag2 = Metadata(details={"lob": "a"}), Metadata(details={"lob": "b"})
-    out.append(("J:gaps-and-per-slice-ragged", [_cum(ps, pe, e, {"paid_loss": i + j + 1}, m)
+    fam("J:gaps-and-per-slice-ragged", lambda: [_cum(ps, pe, e, {"paid_loss": i + j + 1}, m)
                                                 for m, sel in ((rag1, gaps), (rag2, gaps[1:4]))
                                                 for i, (ps, pe) in enumerate(sel)
-                                                for j, e in enumerate([month_end(2021, 3), month_end(2021, 6), month_end(2021, 12)][: 3 - (i % 2)])]))
+                                                for j, e in enumerate([month_end(2021, 3), month_end(2021, 6), month_end(2021, 12)][: 3 - (i % 2)])])
     return out
 
 
